@@ -67,6 +67,10 @@ GenFails(e, pos) ==
               (IF SameAs(a, s) /\ KingsOk(a, s) THEN {}
                ELSE {<<IF all THEN "C02" ELSE "C13", "successor", D(m)>>})
               \cup
+              \* C05, route independence: the successor's key is the key of the engine's own state (residue below), so
+              \* it is the key of the position this route really leads to only if that state is the rules' position
+              (IF Identity(Decode(s)) # Identity(a) THEN {<<"C05", "key-of-wrong-position", D(m)>>} ELSE {})
+              \cup
               \* descriptor as printed: the engine's own bestmove text for this successor is the UCI text of m
               \* (promotion letter iff m promotes follows from m \in Legal(pos))
               (IF Has(e.moves[i], "txt") /\ e.moves[i].txt # MoveText(m) THEN {<<"C02", "printed-text", D(<<m, e.moves[i].txt>>)>>} ELSE {})
@@ -79,6 +83,7 @@ GenFails(e, pos) ==
                THEN LET tt == e.moves[i].t IN
                     (IF SameAs(a, tt) /\ KingsOk(a, tt) THEN {} ELSE {<<"C04", "text-apply", D(m)>>})
                     \cup (IF tt.res # <<>> THEN {<<"C05", "residue-text", D(<<m, tt.res>>)>>} ELSE {})
+                    \cup (IF Identity(Decode(tt)) # Identity(a) THEN {<<"C05", "key-of-wrong-position-text", D(m)>>} ELSE {})
                     \cup (IF tt.r # s.r \/ tt.stm # s.stm \/ tt.cr # s.cr \/ tt.ep # s.ep \/ tt.wk # s.wk \/ tt.bk # s.bk \/ tt.key # s.key
                           THEN {<<"C04", "text-vs-generator", D(m)>>} ELSE {})
                ELSE {})
@@ -127,7 +132,7 @@ ChkFails(e) ==
 TxtFails(e) ==
   LET pos == Decode(e.before)
       ms == {m \in Legal(pos) : MoveText(m) = e.text}
-  IN IF ms = {} THEN {<<"TOOL", "txt-not-legal", D(e.text)>>}
+  IN IF ms = {} THEN {}
      ELSE LET m == CHOOSE x \in ms : TRUE
               a == Apply(pos, m) IN
           (IF SameAs(a, e.after) /\ KingsOk(a, e.after) THEN {} ELSE {<<"C04", "text-apply", D(e.text)>>})
@@ -158,7 +163,7 @@ PosFails(e) ==
       tbl == [k \in {e.table[j][1] : j \in 1..Len(e.table)} |->
                  (CHOOSE j \in 1..Len(e.table) : e.table[j][1] = k)]
       cntOf(k) == IF k \in DOMAIN tbl THEN e.table[tbl[k]][2] ELSE 0
-  IN IF n # Len(e.texts) + 1 THEN {<<"TOOL", "pos-illegal-text", D(n)>>}
+  IN IF n # Len(e.texts) + 1 THEN {}    \* a text that is not a legal move (an engine-generated illegal move is C01's business)
      ELSE
      \* C04: the reconstructed position is the rules' position (final state; every prefix when logged)
      (IF e.panic THEN {<<"C04", "position-panic", D(e.cmd)>>}
@@ -168,14 +173,18 @@ PosFails(e) ==
            \cup (IF \E i \in 1..n : e.states[i].res # <<>> THEN {<<"C05", "residue-prefix", D(e.cmd)>>} ELSE {}))
      \cup (IF ~e.panic /\ e.final.res # <<>> THEN {<<"C05", "residue-position", D(e.final.res)>>} ELSE {})
      \cup
-     \* harness consistency: the logged key of prefix i identifies Identity(hist[i])
-     (IF \E i, j \in 1..n : (e.keys[i] = e.keys[j]) # (ids[i] = ids[j]) THEN {<<"TOOL", "keys-vs-identity", "">>} ELSE {})
+     \* C05: every prefix state is the rules' position, so its key is the key of that position (route independence:
+     \* the same position loaded from FEN carries the key of the rules' position)
+     (IF ~e.panic /\ \E i \in 1..n : Identity(Decode(e.states[i])) # ids[i] THEN {<<"C05", "key-of-wrong-position", D(e.cmd)>>} ELSE {})
      \cup
-     \* C10: the record holds exactly the number of occurrences of every position of the game, nothing else
-     (IF \E i \in 1..n : cntOf(e.keys[i]) # occ(i) THEN {<<"C10", "count", D([i \in 1..n |-> <<occ(i), cntOf(e.keys[i])>>])>>} ELSE {})
-     \cup
-     (IF \E j \in 1..Len(e.table) : e.table[j][2] # 0 /\ e.table[j][1] \notin ToSet(e.keys)
-      THEN {<<"C10", "stale-entry", D(e.table)>>} ELSE {})
+     \* C10: the record holds exactly the number of occurrences of every position of the game, nothing else.
+     \* Judged on the keys of the engine's own prefix states, which is meaningful only when those states are the
+     \* rules' positions (otherwise C04 reports the wrong state and the record cannot be attributed).
+     (IF e.panic \/ \E i \in 1..n : ~SameAs(hist[i], e.states[i]) THEN {}
+      ELSE (IF \E i, j \in 1..n : (e.keys[i] = e.keys[j]) # (ids[i] = ids[j]) THEN {<<"TOOL", "keys-vs-identity", "">>} ELSE {})
+           \cup (IF \E i \in 1..n : cntOf(e.keys[i]) # occ(i) THEN {<<"C10", "count", D([i \in 1..n |-> <<occ(i), cntOf(e.keys[i])>>])>>} ELSE {})
+           \cup (IF \E j \in 1..Len(e.table) : e.table[j][2] # 0 /\ e.table[j][1] \notin ToSet(e.keys)
+                 THEN {<<"C10", "stale-entry", D(e.table)>>} ELSE {}))
 
 (***************************************************************************)
 (* fen: one call of BoardState::from_fen(input).                           *)
